@@ -1812,7 +1812,7 @@ def _project_onto_hyperplane(weights, joint_unimodalities, hyperplane,
 
   affected_weights = tf.stack(affected_weights, axis=-1)
   violation = tf.reduce_sum(affected_weights * hyperplane, axis=-1)
-  if direction == "valley":
+  if direction.lower() == "valley":
     violation = tf.minimum(violation, 0.0)
   else:
     violation = tf.maximum(violation, 0.0)
